@@ -69,8 +69,14 @@ AFTER_MEASURED = {
 AFTER_DEFAULT = 8
 
 REPORT_LOCK = threading.Lock()     # worker threads: Check.report / build_harness are not thread-safe
-HIST_ENV = {"clearsol-sealed": "sealed", "multigoal-blocks": "blocks", "free-exact": "free", "free-exact-dyadic": "free"}
+HIST_ENV = {"clear-newpd-sealed": "sealed", "fresh-sealed": "sealed", "clearsol-sealed": "sealed", "multigoal-blocks": "blocks", "free-exact": "free", "free-exact-dyadic": "free"}
 CLEARSOL_KS = [0, 1, 2, 5]
+# differential history class (the executable form of clear_forgets_every_history / new_query_after_clear_is_first_query):
+# query A leaves residue (sealed goal: many samples, an approximate solution close to its goal, no exact one), clear(), a new
+# problem definition B whose start is far from the (still sealed) goal, solve k - against `setpd B; solve k` on a FRESH planner
+# object with the same harness seed.  B's goal cannot be reached exactly, so the status class does not depend on sampling luck.
+QB_SEALED = ((0.13, 0.87), (0.9, 0.9))
+DIFF_KS = {"quick": [0, 5], "thorough": [0, 1, 2, 5, 13, 34, 89]}
 SEALED_K = 250
 ROADMAP = {"PRM", "PRMstar", "LazyPRM", "LazyPRMstar", "SPARS", "SPARStwo"}   # override setProblemDefinition (clearQuery)
 
@@ -166,6 +172,9 @@ def histories(tier):
         "free-exact-dyadic": lambda k, K: [qx("setpd", QH, 2.220446049250313e-16), "solve %d" % k, "solve %d" % K, "solve %d" % k,
                                            "clear", "solve %d" % k],
         "swap": lambda k, K: [q("setpd", QA), "solve %d" % K, "clear", q("setsg", QSWAP), "solve %d" % k, "solve %d" % K],
+        "clear-newpd-sealed": lambda k, K: [q("setpd", QA), "solve %d" % SEALED_K, "clear", q("setpd", QB_SEALED), "solve %d" % k, "getpd",
+                                            "solve %d" % k],
+        "fresh-sealed": lambda k, K: [q("setpd", QB_SEALED), "solve %d" % k, "getpd", "solve %d" % k],
         # round 10 (lead from eng-c01): the goal state lies inside an obstacle.  Whatever the planner makes of it (INVALID_GOAL,
         # an approximate solution, TIMEOUT) it must not crash, at any k, also when resumed, cleared and given a valid query
         "invalid-goal": lambda k, K: [q("setpd", QGINV), "solve %d" % k, "solve %d" % K, "getpd", "clear", "solve %d" % k, q("setpd", QA),
@@ -382,6 +391,16 @@ def oracle(planner, ops, out, rc, err):
     if rc != 0 and not any(f[1] == "leak" for f in fails):
         fails.append((n_ops, "sanitizer", "rc=%s: %s" % (rc, sanitizer_summary(err))))
     return fails
+
+
+def solve_class(out, i):
+    """(status class, problem definition holds a solution, top solution approximate) of the solve line i; None if missing"""
+    if i >= len(out) or not out[i].startswith("solve st="):
+        return None
+    d = kv(out[i])
+    st = d.get("st", "?")
+    cls = "EXC" if st.startswith("EXC") else ("none" if st in NOSOL_STATUS else st)
+    return (cls, d.get("has", "?"), d.get("approx", "?"))
 
 
 def crash_site(err):
@@ -1244,9 +1263,12 @@ def run(ck):
             ks = list(range(0, min(k1, 45) + 21)) + [k for k in fib_upto(k1 + 20) if k > 45] + ([k1 + j for j in range(-2, 21)] if k1 > 45 else [])
             ks = sorted(set(k for k in ks if k >= 0))
         K = k1 + 40 if first[p] is not None else 600
-        names = [n for n in hs if n != "clearsol-sealed"]
-        for k in CLEARSOL_KS:
+        names = [n for n in hs if n not in ("clearsol-sealed", "clear-newpd-sealed", "fresh-sealed")]
+        for k in (CLEARSOL_KS[:1] + CLEARSOL_KS[2:] if quick else CLEARSOL_KS):
             jobs.append((p, seeds[p], "clearsol-sealed", k, SEALED_K, hs["clearsol-sealed"](k, SEALED_K)))
+        for k in DIFF_KS["quick" if quick else "thorough"]:
+            for hn in ("clear-newpd-sealed", "fresh-sealed"):
+                jobs.append((p, seeds[p], hn, k, SEALED_K, hs[hn](k, SEALED_K)))
         if quick:
             # every k with the basic histories, the longer ones on a rotating subset of k
             for j, k in enumerate(ks):
@@ -1285,6 +1307,33 @@ def run(ck):
         if len(ck.samples) < 4 and res["out"] and res["nontrivial"]:
             ck.sample({"planner": res["planner"], "history": res["history"], "k": res["k"], "ops": [o[:60] for o in res["ops"]],
                        "out": [o.split(" path=")[0][:200] for o in res["out"][:4]]})
+    # differential verdict: the solve after `clear(); setProblemDefinition(B)` against the first solve of a fresh planner
+    by_key = {(r_["planner"], r_["history"], r_["k"]): r_ for r_ in results if r_["history"] in ("clear-newpd-sealed", "fresh-sealed")}
+    for (pl, hn, k), r1 in sorted(by_key.items()):
+        if hn != "clear-newpd-sealed":
+            continue
+        r2 = by_key.get((pl, "fresh-sealed", k))
+        if r2 is None or not r1["out"] or not r2["out"]:
+            continue
+        ck.count("differential:fresh-vs-cleared:pairs")
+        for (i1, i2) in ((4, 1), (6, 3)):
+            c1, c2 = solve_class(r1["out"], i1), solve_class(r2["out"], i2)
+            if c1 is None or c2 is None:
+                continue        # a missing line is a crash: the spec oracle has reported it with the same script
+            if c1 != c2:
+                ck.count("differential:fresh-vs-cleared:differ")
+                rec = {"engine": "proto", "planner": pl, "clause": "cleared-differs-from-fresh", "ctx": "setpd+clear", "history": hn,
+                       "cleared": "/".join(c1), "fresh": "/".join(c2)}
+                key = (pl, "cleared-differs-from-fresh", c1, c2)
+                if key in REPORTED:
+                    continue
+                REPORTED.add(key)
+                if ck.report(rec, script=r1["script"], expected={"fresh_planner_script": r2["script"], "fresh (status class, has, approximate)": c2},
+                             observed={"after clear() (status class, has, approximate)": c1, "out": [o_.split(" path=")[0][:200] for o_ in r1["out"][:8]]},
+                             engine="proto"):
+                    ck.log("property failure: %s k=%s: after clear() + new problem definition the solve gives %s, a fresh planner %s"
+                           % (pl, k, "/".join(c1), "/".join(c2)))
+                break
     ck.extra_cov["after_firing_measured_max"] = dict(sorted(stats["after"].items()))
     ck.extra_cov["after_firing_bound"] = {p: after_bound(p) for p in PLANNERS}
     ck.extra_cov["status_distribution"] = dict(stats["status"])
